@@ -346,13 +346,26 @@ func Sig(g Group, predicted bool, level string) string {
 		}
 		return "dev:?:" + what
 	}
-	return fmt.Sprintf("%s:ran-not-allowed:%s:%s:%s", level, g.World, g.CC, what)
+	// unpredicted: class of the case = world, credential validity, statement classes (forms and carriers
+	// would only multiply the examples that are re-run one by one)
+	cred := "invalid-credentials"
+	if strings.HasSuffix(g.CC, ":valid") {
+		cred = "valid-credentials"
+	}
+	if g.Kind != "write" {
+		var cs []string
+		for _, k := range g.Stmts {
+			cs = append(cs, k.Cls)
+		}
+		what = strings.Join(cs, ";")
+	}
+	return fmt.Sprintf("%s:ran-not-allowed:%s:%s:%s", level, g.World, cred, what)
 }
 
 // MaxSigs bounds the number of distinct unpredicted mismatch signatures a driver reports (each one
 // is re-run on its own by the orchestrator).  Signatures of recorded deviations ("dev:") are bounded
 // by the model's table and always reported.
-const MaxSigs = 12
+const MaxSigs = 4
 
 // Report says whether a mismatch with this signature is to be reported (first occurrence, within the bound).
 func Report(seen map[string]bool, sig string) bool {
